@@ -17,13 +17,18 @@ import (
 // ---- a generic transaction / message / ante handler / message handler with symbolic behaviour ----
 
 type vMsg struct {
-	basicOK bool
-	route   string
+	basicOK    bool
+	basicPanic bool
+	route      string
 }
 
 func (m vMsg) Route() string { return m.route }
 func (m vMsg) Type() string  { return "vmsg" }
 func (m vMsg) ValidateBasic() sdk.Error {
+	if m.basicPanic {
+		var p *vMsg
+		_ = p.route // nil dereference, as a decoded message with a missing field would cause
+	}
 	if !m.basicOK {
 		return sdk.ErrUnknownRequest("invalid")
 	}
@@ -70,7 +75,8 @@ func (v *vApp) snapshot() (a, b *vstore.Mem) { return v.leafA.Mem.Clone(), v.lea
 func VerifC11_RunTx() {
 	v := vNewApp()
 	mode := []runTxMode{runTxModeCheck, runTxModeSimulate, runTxModeDeliver}[zz.Choice("mode", 3)]
-	basicOK := zz.Choice("validate_basic_ok", 2) == 1
+	vb := zz.Choice("validate_basic", 3) // 0 error, 1 ok, 2 panics
+	basicOK := vb == 1
 	anteKind := zz.Choice("ante", 3)       // 0 pays fee and continues, 1 writes then aborts, 2 writes then panics
 	handlerKind := zz.Choice("handler", 4) // 0 ok (writes), 1 error before any write, 2 panic before any write, 3 unknown route
 	fee := zz.Byte("fee")
@@ -101,7 +107,7 @@ func VerifC11_RunTx() {
 	if handlerKind == 3 {
 		route = "nowhere"
 	}
-	tx := vTx{msg: vMsg{basicOK: basicOK, route: route}}
+	tx := vTx{msg: vMsg{basicOK: basicOK, basicPanic: vb == 2, route: route}}
 	preA, preB := v.snapshot()
 	crashed := false
 	var res sdk.Result
